@@ -117,8 +117,9 @@ pub enum BlockSpec {
     AuEncode,
     AuDecode,
     RtlSdrDecode,
-    SymbolSync { sps: f32, maxdev: f32, t0: f32, t1: f32 },
-    ZeroCrossing { sps: f32 },
+    /// `clk`: also take the optional clock output stream (`out_clock()`)
+    SymbolSync { sps: f32, maxdev: f32, t0: f32, t1: f32, #[serde(default)] clk: bool },
+    ZeroCrossing { sps: f32, #[serde(default)] clk: bool },
     Hdlc { min: u16, max: u16, checksum: bool, fix: bool },
     Il2p,
     StreamToPduU8 { max: u16, tail: u8 },
@@ -260,13 +261,14 @@ pub fn spec_strategy() -> BoxedStrategy<BlockSpec> {
         Just(AuEncode),
         Just(AuDecode),
         Just(RtlSdrDecode),
-        (11u32..600, 0u32..100, 0u32..=100).prop_map(|(s, d, t)| SymbolSync {
+        (11u32..600, 0u32..100, 0u32..=100, prop::bool::weighted(0.4)).prop_map(|(s, d, t, clk)| SymbolSync {
             sps: s as f32 / 10.0,
             maxdev: d as f32 / 100.0,
             t0: t as f32 / 100.0,
-            t1: 1.0 - t as f32 / 100.0
+            t1: 1.0 - t as f32 / 100.0,
+            clk,
         }),
-        (11u32..600).prop_map(|s| ZeroCrossing { sps: s as f32 / 10.0 }),
+        (11u32..600, prop::bool::weighted(0.4)).prop_map(|(s, clk)| ZeroCrossing { sps: s as f32 / 10.0, clk }),
         (0u16..6, 2u16..40, any::<bool>(), any::<bool>()).prop_map(|(min, max, checksum, fix)| Hdlc { min, max, checksum, fix }),
         Just(Il2p),
         (1u16..300, 0u8..20).prop_map(|(max, tail)| StreamToPduU8 { max, tail }),
@@ -609,14 +611,32 @@ impl BlockSpec {
             AuEncode => one!(F32, |r| rustradio::blocks::AuEncode::new(r, rustradio::au::Encoding::Pcm16, 44100, 1)),
             AuDecode => one!(U8, |r| rustradio::blocks::AuDecode::new(r, 44100)),
             RtlSdrDecode => one!(U8, |r| rustradio::blocks::RtlSdrDecode::new(r)),
-            SymbolSync { sps, maxdev, t0, t1 } => one!(F32, |r| rustradio::blocks::SymbolSync::new(
-                r,
-                sps,
-                maxdev,
-                Box::new(rustradio::symbol_sync::TedZeroCrossing::new()),
-                Box::new(rustradio::iir_filter::IirFilter::new(&[t0, t1]))
-            )),
-            ZeroCrossing { sps } => one!(F32, |r| rustradio::blocks::ZeroCrossing::new(r, sps, 0.1)),
+            SymbolSync { sps, maxdev, t0, t1, clk } => {
+                let (p, r) = sin!(F32);
+                let (mut b, o) = rustradio::blocks::SymbolSync::new(
+                    r,
+                    sps,
+                    maxdev,
+                    Box::new(rustradio::symbol_sync::TedZeroCrossing::new()),
+                    Box::new(rustradio::iir_filter::IirFilter::new(&[t0, t1])),
+                );
+                let mut outs: Vec<Box<dyn OutPort>> = vec![Box::new(SOut::new(o))];
+                if clk {
+                    if let Some(c) = b.out_clock() {
+                        outs.push(Box::new(SOut::new(c)));
+                    }
+                }
+                Built { scratch: None, sink_probe: None, name: self.name().to_string(), block: Box::new(b), ins: vec![p], outs }
+            }
+            ZeroCrossing { sps, clk } => {
+                let (p, r) = sin!(F32);
+                let (mut b, o) = rustradio::blocks::ZeroCrossing::new(r, sps, 0.1);
+                let mut outs: Vec<Box<dyn OutPort>> = vec![Box::new(SOut::new(o))];
+                if clk {
+                    outs.push(Box::new(SOut::new(b.out_clock())));
+                }
+                Built { scratch: None, sink_probe: None, name: self.name().to_string(), block: Box::new(b), ins: vec![p], outs }
+            }
             Hdlc { min, max, checksum, fix } => {
                 let (p, r) = sin!(U8);
                 let (mut b, o) = HdlcDeframer::new(r, min as usize, max as usize);
